@@ -378,6 +378,10 @@ func (g *Gen) memLimit() int64 {
 	c := g.minDRAM()
 	total := g.M.TotalMemBytes()
 	opts := []int64{0, 0, 64 << 20, 256 << 20, c / 4, c / 2}
+	if g.FillBias && g.R.Chance(3, 4) {
+		// keep memory small so that CPU capacity, not memory, is what runs out
+		return sysgen.Pick(g.R, []int64{0, 32 << 20, 64 << 20, 128 << 20})
+	}
 	if g.MemPressure {
 		opts = []int64{64 << 20, c / 2, c / 2, c * 9 / 10, c * 3 / 2, c * 2, total / 2, total + (1 << 30)}
 	} else if g.R.Chance(1, 4) {
@@ -386,8 +390,63 @@ func (g *Gen) memLimit() int64 {
 	return sysgen.Pick(g.R, opts)
 }
 
-func (g *Gen) cpuReq(qos string) (req, lim int) {
+// boundaryReq sizes a CPU request relative to what is still free (fill bias): just below, at and
+// just above the allocatable shared CPU of some pool (topology-aware) or the free CPUs
+// (balloons), and - for Guaranteed - mixed requests whose full CPUs fit but whose fraction does
+// not. This steers histories into the capacity-failure and undo paths; the oracles do not
+// depend on it.
+func (g *Gen) boundaryReq(r *Runner, qos string) (int, bool) {
+	if r == nil || r.Inst == nil || qos == "BestEffort" {
+		return 0, false
+	}
+	var free []int
+	if sn := r.Inst.TASnap(); sn != nil {
+		for _, p := range sn.Pools {
+			free = append(free, p.AllocatableShared)
+		}
+	} else if sn := r.Inst.BlnSnap(); sn != nil {
+		free = append(free, 1000*len(sn.FreeCpus))
+		for i := range sn.Balloons {
+			b := &sn.Balloons[i]
+			free = append(free, 1000*len(b.Cpus)-b.RequestedMilliCpus, 1000*(len(sn.FreeCpus)+len(b.Cpus))-b.RequestedMilliCpus)
+		}
+	}
+	if len(free) == 0 {
+		return 0, false
+	}
+	a := sysgen.Pick(g.R, free)
+	cands := []int{a - 500, a - 100, a - 1, a, a + 1, a + 100, a + 500}
+	if qos == "Guaranteed" && a > 1000 {
+		// full CPUs fit (a > 1000*full), the fraction does not
+		full := (a - 1) / 1000
+		rest := a - 1000*full
+		cands = append(cands, 1000*full+rest+100, 1000*full+rest+1, 1000*full+999, 1000*full+rest, 1000*full+rest-1)
+	}
+	var ok []int
+	for _, c := range cands {
+		if c > 0 && c <= 1000*len(g.M.OnlineCPUs())+1000 {
+			ok = append(ok, c)
+		}
+	}
+	if len(ok) == 0 {
+		return 0, false
+	}
+	return sysgen.Pick(g.R, ok), true
+}
+
+func (g *Gen) cpuReq(r *Runner, qos string) (req, lim int) {
 	n := len(g.M.OnlineCPUs())
+	if g.FillBias && g.R.Chance(2, 5) {
+		if b, ok := g.boundaryReq(r, qos); ok {
+			if qos == "Guaranteed" {
+				return b, b
+			}
+			if g.R.Chance(1, 2) {
+				lim = b * 2
+			}
+			return b, lim
+		}
+	}
 	switch qos {
 	case "Guaranteed":
 		opts := []int{100, 500, 999, 1000, 1000, 1500, 2000, 2000, 2500, 3000, 4000}
@@ -425,7 +484,7 @@ func (g *Gen) CreateStep(r *Runner, podKey string) *Step {
 	if name == "" {
 		name = fmt.Sprintf("x%d", g.nCtr)
 	}
-	req, lim := g.cpuReq(p.QoS)
+	req, lim := g.cpuReq(r, p.QoS)
 	s := &Step{Op: "create", Pod: podKey, Ctr: fmt.Sprintf("%s.%d", podKey, g.nCtr), Name: name, Req: req, Lim: lim}
 	switch p.QoS {
 	case "Guaranteed":
@@ -550,7 +609,7 @@ func (g *Gen) NextStep(r *Runner) *Step {
 				s.Same = true
 				return s
 			}
-			s.Req, s.Lim = g.cpuReq(p.QoS)
+			s.Req, s.Lim = g.cpuReq(r, p.QoS)
 			s.MemLim = c.MemLim
 			if g.R.Chance(1, 3) {
 				s.MemLim = g.memLimit()
